@@ -46,8 +46,6 @@ def gen(rng, tier):
         return gen_multi(rng, tier)
     ending = rng.choice(["endbody", "endbody", "raise", "close_sub", "kill"])
     transport = rng.choices(["popen", "bare", "socket", "proxy"], [55, 10, 20, 15])[0]
-    if ending == "kill" and transport == "proxy":
-        transport = "popen"
     backend = rng.choice(["thread", "thread", "main_thread_only", "gevent"])
     specs, gwi = L.gateways_for(transport, backend)
     knobs = L.gen_knobs(rng, small_ok=transport == "popen")
@@ -104,7 +102,8 @@ def gen(rng, tier):
             at = ["op", 1, len(W["ops"]) + rng.choice(sends), rng.choice(["inv", "ret"])]
         else:
             at = ["rstep", rng.randrange(1, 900)]
-        faults.append({"at": at, "do": ["kill", "w1"]})
+        # (proxied: the sub is killed, the forwarder reports the end of its stream to the initiator)
+        faults.append({"at": at, "do": ["kill", "w2" if transport == "proxy" else "w1"]})
         sops.append(["sleep", 500.0])
     # receiver ops
     rops = []
@@ -312,7 +311,8 @@ def oracle(case, res, hist):
         V.append(v("endmarker-not-requested", key0, "endmarker delivered though none was requested"))
     if ends and items and items[-1][0] > ends[0]:
         V.append(v("item-after-endmarker", key0, f"item {items[-1][1]} after the endmarker"))
-    W = wire_tokens_for(case, res, hist, T, case["dir"]) if case["transport"] != "proxy" else None
+    # (proxied: the sub's own pipes carry the same frames, the forwarder passes the byte stream on unmodified)
+    W = wire_tokens_for(case, res, hist, T, case["dir"])
     if W is None:
         # no ground-truth wire order available (proxied): fall back to the program order of the single sender
         W = []
